@@ -43,6 +43,7 @@ from unified_planning.model import (
 )
 from unified_planning.model.contingent import ContingentProblem
 from unified_planning.model.htn import HierarchicalProblem, Method, Task
+from unified_planning.model.multi_agent import MultiAgentProblem, Agent
 from unified_planning.plans import ActionInstance
 from unified_planning.exceptions import UPConflictingEffectsException
 
@@ -73,6 +74,9 @@ class Replica:
         idf = {}
         for t, v in (initial_defaults or []):
             idf[W.type(t)] = pyconst(W, v)
+        if kind == "ma":
+            self.p = MultiAgentProblem(name, W.env)
+            return
         cls = {"contingent": ContingentProblem, "hierarchical": HierarchicalProblem}.get(kind, Problem)
         self.p = cls(name, W.env, initial_defaults=idf)
 
@@ -133,6 +137,8 @@ def value_fault(R, op, world):
     Returns None or a reason."""
     k = op["op"]
     ftypes = {f["name"]: f["type"] for f in world["fluents"]}
+    if isinstance(R.p, MultiAgentProblem):
+        return None
     try:
         if k == "set_init":
             t = ftypes[op["fluent"][1]]
@@ -254,7 +260,67 @@ def build_action(W, ad):
     return a
 
 
+def _apply_ma(W, p, k, op):
+    def agent(name):
+        if not p.has_agent(name):
+            raise BuildError(f"no agent {name}")
+        return p.agent(name)
+
+    def add_ag_fluent(ag, fd, public, default):
+        if fd["name"] not in W.fluents:
+            raise BuildError(fd["name"])
+        f = W.fluents[fd["name"]]
+        kw = {} if default is None else {"default_initial_value": pyconst(W, default)}
+        (ag.add_public_fluent if public else ag.add_private_fluent)(f, **kw)
+
+    if k == "add_object":
+        if op["obj"] not in W.objects:
+            raise BuildError(op["obj"])
+        p.add_object(W.objects[op["obj"]])
+    elif k == "ma_env_fluent":
+        fd = op["fluent"]
+        if fd["name"] not in W.fluents:
+            raise BuildError(fd["name"])
+        kw = {} if op.get("default") is None else {"default_initial_value": pyconst(W, op["default"])}
+        p.ma_environment.add_fluent(W.fluents[fd["name"]], **kw)
+    elif k == "add_agent":
+        ag = Agent(op["name"], p)
+        for fd, public, default in op.get("fluents", []):
+            add_ag_fluent(ag, fd, public, default)
+        for ad in op.get("actions", []):
+            ag.add_action(build_action(W, ad))
+        p.add_agent(ag)
+    elif k == "agent_add_fluent":
+        add_ag_fluent(agent(op["agent"]), op["fluent"], op.get("public", False), op.get("default"))
+    elif k == "agent_add_action":
+        agent(op["agent"]).add_action(build_action(W, op["action"]))
+    elif k == "agent_act_add_effect":
+        ag = agent(op["agent"])
+        if not ag.has_action(op["action"]):
+            raise BuildError(op["action"])
+        a = ag.action(op["action"])
+        _add_effect(W, a, op["effect"], scope_of(a))
+    elif k == "agent_add_goal":
+        ag = agent(op["agent"])
+        (ag.add_public_goal if op.get("public") else ag.add_private_goal)(W.expr(op["goal"]))
+    elif k == "set_init":
+        fe = W.expr(op["fluent"])
+        if op.get("agent"):
+            fe = W.em.Dot(agent(op["agent"]), fe)
+        p.set_initial_value(fe, pyconst(W, op["value"]))
+    elif k == "add_goal":
+        g = W.expr(op["goal"])
+        if op.get("agent"):
+            g = W.em.Dot(agent(op["agent"]), g)
+        p.add_goal(g)
+    else:
+        raise BuildError(f"unknown multi-agent op {k}")
+    return None
+
+
 def _apply(W, R, p, k, op):
+    if isinstance(p, MultiAgentProblem):
+        return _apply_ma(W, p, k, op)
     if k == "add_fluent":
         fd = op["fluent"]
         if fd["name"] not in W.fluents:
@@ -423,9 +489,32 @@ def snap_action(a):
     return out
 
 
+def snapshot_ma(p):
+    s = {
+        "name": p.name,
+        "objects": [(o.name, str(o.type)) for o in p.all_objects],
+        "env_fluents": [(f.name, str(f.type)) for f in p.ma_environment.fluents],
+        "env_defaults": sorted((f.name, str(v)) for f, v in p.ma_environment.fluents_defaults.items()),
+        "init": sorted((str(k), str(v)) for k, v in p.explicit_initial_values.items()),
+        "goals": [str(g) for g in p.goals],
+        "agents": [{
+            "name": a.name,
+            "fluents": [(f.name, str(f.type)) for f in a.fluents],
+            "public": [f.name for f in a.public_fluents],
+            "defaults": sorted((f.name, str(v)) for f, v in a.fluents_defaults.items()),
+            "actions": [snap_action(x) for x in a.actions],
+            "public_goals": [str(g) for g in a.public_goals],
+            "private_goals": [str(g) for g in a.private_goals],
+        } for a in p.agents],
+    }
+    return json.dumps(s, sort_keys=True)
+
+
 def snapshot(p):
     """Rendering of every public collection of a problem (always compared with an earlier
     snapshot of the SAME object)."""
+    if isinstance(p, MultiAgentProblem):
+        return snapshot_ma(p)
     s = {
         "name": p.name,
         "fluents": [(f.name, str(f.type), [(q.name, str(q.type)) for q in f.signature]) for f in p.fluents],
@@ -510,6 +599,8 @@ def compatible(ftype, v):
 def stored_value_problems(p):
     """Every stored value that is not type-compatible / not constant where it must be."""
     bad = []
+    if isinstance(p, MultiAgentProblem):
+        return bad  # C23 is not anchored in the multi-agent model
     for fe, v in p.explicit_initial_values.items():
         if not v.is_constant():
             bad.append(f"initial value of {fe} is the non-constant expression {v}")
@@ -595,7 +686,7 @@ class ModelHist(Engine):
         if self.prop == "C24":
             return ["perm"]
         if self.prop == "C22":
-            return ["classical", "temporal", "contingent", "hierarchical", "classical", "hierarchical"]
+            return ["classical", "temporal", "contingent", "hierarchical", "classical", "hierarchical", "ma"]
         return ["classical", "temporal", "contingent", "classical"]
 
     # ----------------------------------------------------------------- vocabulary
@@ -694,6 +785,8 @@ class ModelHist(Engine):
     def generate(self, seed, profile, tier):
         if self.prop == "C24":
             return self.generate_perm(seed, tier)
+        if profile == "ma":
+            return self.generate_ma(seed, tier)
         rw, ro, rs = stream(seed, "world"), stream(seed, "ops"), stream(seed, "sched")
         world = self.gen_vocab(rw)
         tmap = dict(world["types"])
@@ -740,6 +833,80 @@ class ModelHist(Engine):
             faulty = ro.random() < 0.25
             usable = [f for f in added_fl if all(any(subtype_of(tmap, ot, pt[1]) for o, ot in objs if o in added_obj)
                                                  for _, pt in f["params"])]
+            if kind == "hierarchical" and ro.random() < 0.35:
+                tn = [t_ for t_, _ in world["types"]]
+                x = ro.random()
+                if methods and x > 0.2 and ro.random() < 0.35:
+                    x = ro.choice([0.5, 0.65])   # edit an existing method (what a shared Method object betrays)
+                if x < 0.2 or not tasks:
+                    name = f"t{len(tasks) + 1}"
+                    params = [["x", ["user", ro.choice(tn)]]] if ro.random() < 0.5 else []
+                    op = {"op": "add_task", "name": name, "params": params}
+                    if faulty and tasks:
+                        op["name"], op["faulty"] = ro.choice(sorted(tasks)), "duplicate"
+                    else:
+                        tasks[name] = params
+                    ops.append(op)
+                    continue
+                n_ident += 1
+
+                def subtask(param_names):
+                    cands = [(n_, ps_) for n_, ps_ in tasks.items()] + \
+                            [(n_, ad_["params"]) for n_, ad_ in actions.items() if not ad_.get("durative")]
+                    what, ps_ = ro.choice(cands)
+                    args = []
+                    for _, pt in ps_:
+                        mine = [pn for pn, ptt in param_names if subtype_of(tmap, ptt[1], pt[1])]
+                        objs_ = [o for o, ot in objs if o in added_obj and subtype_of(tmap, ot, pt[1])]
+                        if mine and ro.random() < 0.6:
+                            args.append(["p", ro.choice(mine)])
+                        elif objs_:
+                            args.append(["o", ro.choice(objs_)])
+                        else:
+                            return None
+                    return {"what": what, "args": args, "ident": f"st{n_ident}"}
+
+                if x < 0.45:
+                    tname = ro.choice(sorted(tasks))
+                    mparams = [[f"q{j}", pt] for j, (_, pt) in enumerate(tasks[tname])]
+                    if ro.random() < 0.4:
+                        mparams.append(["extra", ["user", ro.choice(tn)]])
+                    name = f"m{len(methods) + 1}"
+                    g.params = [(n_, t_) for n_, t_ in mparams]
+                    md = {"name": name, "params": mparams, "task": tname, "task_args": [q for q, _ in mparams[:len(tasks[tname])]],
+                          "pre": [g.bool_expr(1)] if ro.random() < 0.5 else [], "subtasks": []}
+                    g.params = []
+                    st = subtask(mparams)
+                    if st:
+                        md["subtasks"].append(st)
+                    op = {"op": "add_method", "method": md}
+                    if faulty and methods:
+                        md["name"], op["faulty"] = ro.choice(sorted(methods)), "duplicate"
+                    else:
+                        methods[name] = mparams
+                    ops.append(op)
+                elif x < 0.6 and methods:
+                    mn = ro.choice(sorted(methods))
+                    g.params = [(n_, t_) for n_, t_ in methods[mn]]
+                    ops.append({"op": "method_add_pre", "method": mn, "pre": g.bool_expr(1)})
+                    g.params = []
+                elif x < 0.72 and methods:
+                    mn = ro.choice(sorted(methods))
+                    st = subtask(methods[mn])
+                    if st:
+                        ops.append({"op": "method_add_subtask", "method": mn, "subtask": st})
+                elif x < 0.92:
+                    st = subtask([])
+                    if st:
+                        op = {"op": "tn_add_subtask", "subtask": st}
+                        if faulty and tn_idents:
+                            st["ident"], op["faulty"] = ro.choice(tn_idents), "duplicate"
+                        else:
+                            tn_idents.append(st["ident"])
+                        ops.append(op)
+                elif len(tn_idents) >= 2:
+                    ops.append({"op": "tn_set_ordered", "idents": ro.sample(tn_idents, 2)})
+                continue
             if r < 0.10 and len(added_fl) < len(fl_all):
                 fd = fl_all[len(added_fl)]
                 vals = values_of(fd["type"], objs, tmap)
@@ -914,77 +1081,6 @@ class ModelHist(Engine):
                     op["params"] = [self.wrong_value(ro, ad["params"][0][1], objs, tmap)[0]]
                     op["faulty"], op["why"] = "value", "incompatible action-instance parameter"
                 ops.append(op)
-            elif kind == "hierarchical" and ro.random() < 0.9:
-                tn = [t_ for t_, _ in world["types"]]
-                x = ro.random()
-                if x < 0.2 or not tasks:
-                    name = f"t{len(tasks) + 1}"
-                    params = [["x", ["user", ro.choice(tn)]]] if ro.random() < 0.5 else []
-                    op = {"op": "add_task", "name": name, "params": params}
-                    if faulty and tasks:
-                        op["name"], op["faulty"] = ro.choice(sorted(tasks)), "duplicate"
-                    else:
-                        tasks[name] = params
-                    ops.append(op)
-                    continue
-                n_ident += 1
-
-                def subtask(param_names):
-                    cands = [(n_, ps_) for n_, ps_ in tasks.items()] + \
-                            [(n_, ad_["params"]) for n_, ad_ in actions.items() if not ad_.get("durative")]
-                    what, ps_ = ro.choice(cands)
-                    args = []
-                    for _, pt in ps_:
-                        mine = [pn for pn, ptt in param_names if subtype_of(tmap, ptt[1], pt[1])]
-                        objs_ = [o for o, ot in objs if o in added_obj and subtype_of(tmap, ot, pt[1])]
-                        if mine and ro.random() < 0.6:
-                            args.append(["p", ro.choice(mine)])
-                        elif objs_:
-                            args.append(["o", ro.choice(objs_)])
-                        else:
-                            return None
-                    return {"what": what, "args": args, "ident": f"st{n_ident}"}
-
-                if x < 0.45:
-                    tname = ro.choice(sorted(tasks))
-                    mparams = [[f"q{j}", pt] for j, (_, pt) in enumerate(tasks[tname])]
-                    if ro.random() < 0.4:
-                        mparams.append(["extra", ["user", ro.choice(tn)]])
-                    name = f"m{len(methods) + 1}"
-                    g.params = [(n_, t_) for n_, t_ in mparams]
-                    md = {"name": name, "params": mparams, "task": tname, "task_args": [q for q, _ in mparams[:len(tasks[tname])]],
-                          "pre": [g.bool_expr(1)] if ro.random() < 0.5 else [], "subtasks": []}
-                    g.params = []
-                    st = subtask(mparams)
-                    if st:
-                        md["subtasks"].append(st)
-                    op = {"op": "add_method", "method": md}
-                    if faulty and methods:
-                        md["name"], op["faulty"] = ro.choice(sorted(methods)), "duplicate"
-                    else:
-                        methods[name] = mparams
-                    ops.append(op)
-                elif x < 0.6 and methods:
-                    mn = ro.choice(sorted(methods))
-                    g.params = [(n_, t_) for n_, t_ in methods[mn]]
-                    ops.append({"op": "method_add_pre", "method": mn, "pre": g.bool_expr(1)})
-                    g.params = []
-                elif x < 0.72 and methods:
-                    mn = ro.choice(sorted(methods))
-                    st = subtask(methods[mn])
-                    if st:
-                        ops.append({"op": "method_add_subtask", "method": mn, "subtask": st})
-                elif x < 0.92:
-                    st = subtask([])
-                    if st:
-                        op = {"op": "tn_add_subtask", "subtask": st}
-                        if faulty and tn_idents:
-                            st["ident"], op["faulty"] = ro.choice(tn_idents), "duplicate"
-                        else:
-                            tn_idents.append(st["ident"])
-                        ops.append(op)
-                elif len(tn_idents) >= 2:
-                    ops.append({"op": "tn_set_ordered", "idents": ro.sample(tn_idents, 2)})
             elif kind == "contingent" and usable:
                 bf = [f for f in usable if f["type"][0] == "bool" and not f["params"]]
                 if not bf:
@@ -1015,6 +1111,134 @@ class ModelHist(Engine):
             sched.append(dict(op, to=to))
         return {"engine": self.name, "kind": kind, "initial_defaults": init_defaults,
                 "initial_defaults_faulty": idf_faulty, "world": world, "ops": sched}
+
+    def generate_ma(self, seed, tier):
+        rw, ro, rs = stream(seed, "world"), stream(seed, "ops"), stream(seed, "sched")
+        world = self.gen_vocab(rw)
+        for fd in world["fluents"]:
+            fd["params"] = fd["params"][:1]
+        tmap = dict(world["types"])
+        objs = world["objects"]
+        fl = world["fluents"]
+        ops = [{"op": "add_object", "obj": o} for o, _ in objs]
+        env_fl = fl[:2]
+        for fd in env_fl:
+            vals = values_of(fd["type"], objs, tmap)
+            # every multi-agent fluent gets a default: MultiAgentProblem.__eq__ needs all initial values
+            ops.append({"op": "ma_env_fluent", "fluent": fd, "default": ro.choice(vals) if vals else None})
+        free = list(fl[2:])
+        agents = {}   # name -> {"fluents": [fd], "actions": {name: ad}}
+        n_act = 0
+
+        def ag_action(agname, usable):
+            nonlocal n_act
+            n_act += 1
+            g = ExprGen(ro, {"types": world["types"], "objects": objs, "fluents": usable}, [], quant=False, ifuns=False,
+                        div=False, const_range=(0, 3))
+            effs = []
+            for _ in range(ro.randint(0, 2)):
+                ed = self.gen_effect(ro, world, g, usable)
+                if ed and all(e2["fluent"][1] != ed["fluent"][1] for e2 in effs):
+                    effs.append(ed)
+            return {"name": f"act{n_act}", "params": [], "durative": False, "effects": effs,
+                    "pre": [g.bool_expr(1)] if ro.random() < 0.5 else []}
+
+        def new_agent():
+            name = f"ag{len(agents) + 1}"
+            mine = []
+            for _ in range(ro.randint(1, 2)):
+                if free:
+                    mine.append(free.pop(0))
+            fls = []
+            for fd in mine:
+                vals = values_of(fd["type"], objs, tmap)
+                fls.append([fd, ro.random() < 0.5, ro.choice(vals) if vals else None])
+            acts = [ag_action(name, mine + env_fl)] if mine else []
+            agents[name] = {"fluents": mine, "actions": {a["name"]: a for a in acts}}
+            return {"op": "add_agent", "name": name, "fluents": fls, "actions": acts}
+
+        ops.append(new_agent())
+        nops = ro.randint(10, 35)
+        nclones = rs.choice([1, 1, 2])
+        clone_at = sorted(rs.sample(range(len(ops) + 1, len(ops) + nops), min(nclones, nops - 1)))
+        while len(ops) < nops + 6:
+            r = ro.random()
+            faulty = ro.random() < 0.2
+            an = ro.choice(sorted(agents))
+            ag = agents[an]
+            if r < 0.12 and (free or faulty):
+                op = new_agent() if free else {"op": "add_agent", "name": an, "fluents": [], "actions": []}
+                if faulty:
+                    op = {"op": "add_agent", "name": ro.choice(sorted(agents)), "fluents": [], "actions": [], "faulty": "duplicate"}
+                ops.append(op)
+            elif r < 0.22 and free:
+                fd = free.pop(0)
+                vals = values_of(fd["type"], objs, tmap)
+                ops.append({"op": "agent_add_fluent", "agent": an, "fluent": fd, "public": ro.random() < 0.5,
+                            "default": ro.choice(vals) if vals else None})
+                ag["fluents"].append(fd)
+            elif r < 0.27 and ag["fluents"] and faulty:
+                ops.append({"op": "agent_add_fluent", "agent": an, "fluent": ro.choice(ag["fluents"]), "public": False,
+                            "default": None, "faulty": "duplicate"})
+            elif r < 0.40 and ag["fluents"]:
+                ad = ag_action(an, ag["fluents"] + env_fl)
+                if faulty and ag["actions"]:
+                    ad["name"] = ro.choice(sorted(ag["actions"]))
+                    ops.append({"op": "agent_add_action", "agent": an, "action": ad, "faulty": "duplicate"})
+                else:
+                    ag["actions"][ad["name"]] = ad
+                    ops.append({"op": "agent_add_action", "agent": an, "action": ad})
+            elif r < 0.58 and ag["actions"]:
+                usable = ag["fluents"] + env_fl
+                g = ExprGen(ro, {"types": world["types"], "objects": objs, "fluents": usable}, [], quant=False, ifuns=False,
+                            div=False, const_range=(0, 3))
+                ed = self.gen_effect(ro, world, g, usable, faulty="value" if faulty and ro.random() < 0.5 else None)
+                if ed is None:
+                    continue
+                ed.pop("why", None)
+                ops.append({"op": "agent_act_add_effect", "agent": an, "action": ro.choice(sorted(ag["actions"])), "effect": ed})
+            elif r < 0.68 and ag["fluents"]:
+                bf = [f for f in ag["fluents"] if f["type"][0] == "bool" and not f["params"]]
+                if bf:
+                    ops.append({"op": "agent_add_goal", "agent": an, "goal": ["f", ro.choice(bf)["name"]], "public": ro.random() < 0.5})
+            elif r < 0.86:
+                src = ro.choice([None, an])
+                cands = (env_fl if src is None else ag["fluents"])
+                cands = [f for f in cands if not f["params"] or any(subtype_of(tmap, ot, f["params"][0][1][1]) for _, ot in objs)]
+                if not cands:
+                    continue
+                fd = ro.choice(cands)
+                fe = ["f", fd["name"]] + [["o", ro.choice([o for o, ot in objs if subtype_of(tmap, ot, pt[1])])]
+                                          for _, pt in fd["params"]]
+                vals = values_of(fd["type"], objs, tmap)
+                if not vals:
+                    continue
+                v = ro.choice(vals)
+                if faulty:
+                    v = self.wrong_value(ro, fd["type"], objs, tmap)[0]
+                ops.append({"op": "set_init", "fluent": fe, "agent": src, "value": v})
+            else:
+                bf = [f for f in env_fl if f["type"][0] == "bool" and not f["params"]]
+                if bf:
+                    ops.append({"op": "add_goal", "goal": ["f", ro.choice(bf)["name"]]})
+        sched = []
+        replicas = ["P0"]
+        for i, op in enumerate(ops):
+            if clone_at and i == clone_at[0]:
+                clone_at.pop(0)
+                src = rs.choice(replicas)
+                nid = f"P{len(replicas)}"
+                sched.append({"op": "clone", "of": src, "id": nid})
+                replicas.append(nid)
+            to = list(replicas)
+            if len(replicas) > 1:
+                if rs.random() < 0.12:
+                    to = [rs.choice(replicas)]
+                else:
+                    rs.shuffle(to)
+            sched.append(dict(op, to=to))
+        return {"engine": self.name, "kind": "ma", "initial_defaults": [], "initial_defaults_faulty": None, "world": world,
+                "ops": sched}
 
     # ------------------------------------------------------------------- execute
     def execute(self, script, ctx):
@@ -1162,12 +1386,21 @@ class ModelHist(Engine):
             # == itself cannot be computed?  If a problem cannot even be compared with itself
             # (e.g. its kind computation asserts on an initial value given for an object the
             # problem does not have) the failure says nothing about cloning: not judged.
-            try:
-                a == a
-                b == b
-            except Exception:
+            def self_eq(x):
+                try:
+                    x == x
+                    return True
+                except Exception:
+                    return False
+            sa, sb = self_eq(a), self_eq(b)
+            if not sa and not sb:
                 ctx.probe("equality-uncomputable:" + type(ex).__name__)
                 return True
+            if sa != sb:
+                # one replica can be compared with itself and the other cannot: they have diverged
+                ctx.fail("C22.stay-equal", f"op {i}: one replica compares equal to itself, comparing the other with "
+                         f"itself raises {type(ex).__name__}: {ex}", cls="self-comparison-differs")
+                return False
             ctx.fail("C22.stay-equal", f"op {i}: comparing the replicas raised {type(ex).__name__}: {ex}",
                      cls=type(ex).__name__)
             return False
